@@ -128,9 +128,10 @@ def baseSize (size : Nat) : Nat := if size ≥ 3 then 0 else size
 namespace GenMod
 open Mod
 
-def genCell (nz : Nat) : G Cell := do
+def genCell (nz : Nat) (amiga : Bool := false) : G Cell := do
   if !(← chance nz) then return {}
-  let note ← if (← chance 70) then range noteBase (noteBase + 59) else pure 0
+  -- `amiga`: only the three octaves of the Amiga trackers (periods 856..113)
+  let note ← if (← chance 70) then (if amiga then range (noteBase + 12) (noteBase + 47) else range noteBase (noteBase + 59)) else pure 0
   let ins ← if (← chance 70) then range 0 31 else pure 0
   return { note := note, ins := ins, vol := 0 }
 
@@ -149,6 +150,12 @@ def genSmp (i : Nat) (maxLen : Nat) : G (Ins × Smp) := do
   if looped ∧ half ≥ 2 then
     let a ← range 0 (half - 2)
     let b ← range (a + 2) half
+    -- the loop-position corners: from 0 over the whole sample, from 0 over two words, from 0 ending before the end,
+    -- from the middle to the end
+    let corner ← below 8
+    let (a, b) := match corner with
+      | 0 => (0, half) | 1 => (0, 2) | 2 => (0, if half ≥ 3 then max 2 (b - 1 - (b - 1) / half) else b) | 3 => (a, half) | _ => (a, b)
+    let b := if b < a + 2 then a + 2 else if b > half then half else b
     return ({ name := name, subs := [sub] }, { name := [], len := len, lps := 2 * a, lpe := 2 * b, flg := FLOOP, pcm := pcm })
   return ({ name := name, subs := [sub] }, { name := [], len := len, lps := 0, lpe := 0, flg := 0, pcm := pcm })
 
@@ -157,6 +164,8 @@ def gen (special : Nat) : G (Module × Opts × String) := do
   let kind ← below 4
   let chn ← if kind < 2 then pure 4 else if (← chance 50) then range 1 9 else range 1 32
   let mx := special = 9
+  let kind := if special = 4 then kind % 2 else kind
+  let chn := if special = 4 then 4 else chn
   let chn := if mx ∧ kind ≥ 2 then 1 + chn % 4 else chn
   let npat ← if (← chance 10) then range 1 128 else range 1 (2 + size)
   let npat := if size = 0 then min npat 3 else npat
@@ -167,18 +176,34 @@ def gen (special : Nat) : G (Module × Opts × String) := do
   let pos ← below len
   let ords := (ords.take pos ++ [npat - 1] ++ ords.drop (pos + 1)).map u8
   let nz ← if mx then range 1 4 else range 5 90
-  let pats ← listOf npat (do return { rows := 64, cells := (← listOf (64 * chn) (genCell nz)) })
+  let pats ← listOf npat (do return { rows := 64, cells := (← listOf (64 * chn) (genCell nz (special = 4))) })
   let maxLen := if size = 0 then 64 else if size = 1 then 600 else 5000
   let allEmpty ← chance 8
+  -- class 4: the header conventions by which the loader recognises a Protracker module (M.K. / M!K!, 4 channels, restart
+  -- byte 0x7f, no instrument with repeat length 0 -- here: all 31 samples present and looped --, notes inside the three
+  -- Amiga octaves): the fingerprint selects per-tracker sample handling (full-repeat loops from offset 0)
+  let ptk := special = 4
+  let allEmpty := allEmpty && !ptk
   let mut ins : Array Ins := #[]
   let mut smps : Array Smp := #[]
   for i in [0:31] do
     let (x, s) ← genSmp i (if allEmpty then 0 else maxLen)
+    let plen ← range 2 20
+    let pc ← below 4
+    let pa ← range 0 (plen - 2)
+    let pb ← range (pa + 2) plen
+    let (la, lb) := match pc with | 0 => (0, plen) | 1 => (0, 2) | 2 => (0, max 2 (plen - 1)) | _ => (pa, if (pa + pb) % 2 = 0 then plen else pb)
+    let ppcm ← genPcm (2 * plen)
+    let (x, s) := if ptk then
+        ({ x with subs := [{ sid := i, vol := 64 - i, pan := 0x80, xpo := 0, fin := 0 }] },
+         ({ name := [], len := 2 * plen, lps := 2 * la, lpe := 2 * lb, flg := FLOOP, pcm := ppcm } : Smp))
+      else (x, s)
     let (x, s) := if allEmpty then ({ x with subs := [] }, { s with len := 0, lps := 0, lpe := 0, flg := 0, pcm := [] }) else (x, s)
     ins := ins.push x
     smps := smps.push s
   let name ← genName 20
-  let restart ← if (← chance 50) then pure 0x7f else pickB [0, 1, 0x7e, 0x80, 0xff] 0 255 50
+  let restart ← if (← chance 50) then pure 0x7f else pickB [0, 1, 0x78, 0x7e, 0x80, 0xff] 0 255 50
+  let restart := if special = 4 then 0x7f else restart
   let fxseed ← next
   -- big files: one (64 KiB class) or nine (1 MiB class) maximal samples first, small ones behind them
   if special = 5 ∨ special = 6 then
